@@ -31,7 +31,7 @@ RULE = ("cases: fitter configurations (grid, law, A_V range, format/memmap/filte
         "fits with condition number <= 1e4")
 ASSUMPTIONS = ["finite value alphabets for real-valued inputs (see DESIGN.md section 0)",
                "condition number of the regression <= 1e4", "limits closer than 1e-9 dex to the fitted model are ambiguous"]
-REQUIRED_CLASSES = ['two-fitted-bands-with-nearly-equal-k', 'grid-of-hundreds-of-models', 'integer-typed-photometry', 'convolved-files-in-Jy', 'band-on-last-node-of-law', 'gzipped-convolved-files', 'law-in-other-unit', 'two-limits-different-confidence', 'av-interior', 'av-clamped-lo', 'av-clamped-hi', 'av-pinned', 'no-limit', 'limit-satisfied', 'limit-violated',
+REQUIRED_CLASSES = ['law-read-from-a-file-with-the-wavelength-column-last', 'two-fitted-bands-with-nearly-equal-k', 'grid-of-hundreds-of-models', 'integer-typed-photometry', 'convolved-files-in-Jy', 'band-on-last-node-of-law', 'gzipped-convolved-files', 'law-in-other-unit', 'two-limits-different-confidence', 'av-interior', 'av-clamped-lo', 'av-clamped-hi', 'av-pinned', 'no-limit', 'limit-satisfied', 'limit-violated',
                     'limit-violated-conf1', 'k0-band-fitted', 'duplicate-model-tied', 'float32-path', 'flag4-fitted', 'negative-range']
 TIMEOUT = {'quick': 300, 'thorough': 1800}
 
@@ -45,7 +45,7 @@ def setup(tier, seed):
     cfgs = []
     grids = [0, 1] if tier == 'quick' else [0, 1, 2]
     ns = [2, 3, 4] if tier == 'quick' else [2, 3, 4, 5]
-    for g, law, ir, iv, n in itertools.product(grids, ['power', 'three', 'nonmono', 'nonmono@nm', 'edge'], range(len(RANGES)), range(len(VARIANTS)), ns):
+    for g, law, ir, iv, n in itertools.product(grids, ['power', 'three', 'nonmono', 'nonmono@nm', 'edge', 'nonmono@file'], range(len(RANGES)), range(len(VARIANTS)), ns):
         if tier == 'quick' and n == 2 and (iv != 0 or g != 0):
             continue
         if iv in (4, 5) and (g != 0 or n != 3 or law not in ('power', 'three')):
@@ -53,6 +53,8 @@ def setup(tier, seed):
         if law == 'edge' and (iv not in (0, 2) or g != 0 or n == 2):
             continue
         if law == 'nonmono@nm' and (iv not in (0, 1) or g != 0):
+            continue
+        if law == 'nonmono@file' and (iv != 0 or g != 0 or n != 3 or ir not in (0, 3)):
             continue
         if tier == 'quick' and n == 4 and not (g == 0 and iv == 0 and law in ('power', 'three') and ir in (0, 5)):
             continue          # quick: 4-band vectors (two limits + two fitted points) on the structurally distinct configurations only
@@ -114,7 +116,9 @@ def run_case(ctx, case, rec, d):
     logm = np.log10(flux_all[:, cols])
     if avlo < 0:
         rec.cls('negative-range')
-    if '@' in law:
+    if law.endswith('@file'):
+        rec.cls('law-read-from-a-file-with-the-wavelength-column-last')
+    elif '@' in law:
         rec.cls('law-in-other-unit')
     if law == 'edge' and 'B5' in bands:
         rec.cls('band-on-last-node-of-law')
